@@ -99,6 +99,9 @@ def run_one(m, props_filter, validate, keep, tier):
         res["results"] = {p: rc for p, (rc, _) in outs.items()}
         if m.get("kind") == "preserving":
             bad = [p for p, (rc, o) in outs.items() if rc != 0]
+            if m.get("decided"):
+                # the pinned tree itself: every rule must recognise its construct (nothing UNDECIDED), else the evidence is hollow
+                bad += [p for p, (rc, o) in outs.items() if "UNDECIDED property=" in o and p not in bad]
             res["ok"] = not bad
             for p in bad:
                 res["detail"] += "\n[%s] false alarm:\n%s" % (p, outs[p][1][-1500:])
